@@ -28,6 +28,7 @@ type Field struct {
 	Type     string    `json:"type,omitempty"`     // Go type text of a named field ("" for embedded: the type is Name)
 	Class    string    `json:"class,omitempty"`    // named fields: "inline" | "empty" | "ordinary"
 	Generic  bool      `json:"generic,omitempty"`  // embedded type is an instance Name[int] of a generic type
+	Foreign  string    `json:"foreign,omitempty"`  // embedded type of another package: "sync.Mutex" | "unicode.Range16"
 	Doc      []DocLine `json:"doc,omitempty"`
 }
 
@@ -45,6 +46,8 @@ type Input struct {
 	Types     []Type            `json:"types"`
 	Files     map[string]string `json:"files,omitempty"` // files for [[path]] doc lines
 	KnownOnly bool              `json:"known_only,omitempty"`
+	NoPkgTag  bool              `json:"no_pkg_tag,omitempty"` // the package clause carries no +gengo:runtimedoc: only types tagged themselves are enabled
+	Broken    bool              `json:"broken,omitempty"`     // malformed stream: the source has a syntax error
 	Grouped   bool              `json:"grouped,omitempty"` // declare the types in one  type ( ... )  group
 }
 
@@ -78,8 +81,34 @@ func hasExpose(t *Type) bool {
 	return false
 }
 
-func covered(t *Type) bool {
-	if t.Disabled || !token.IsExported(t.Name) {
+// enabled mirrors IsGeneratorEnabled on the merged package and type tags (input data for the model: C06's concern)
+func (in *Input) enabled(t *Type) bool {
+	var vals []string
+	has, sub := false, false
+	for _, l := range t.Doc {
+		if !l.Tag || l.Text == "" || strings.HasPrefix(l.Text, "go:") {
+			continue
+		}
+		k, v := l.Text[1:], ""
+		if i := strings.IndexAny(k, "= "); i >= 0 {
+			k, v = k[:i], k[i+1:]
+		}
+		if k == "gengo:runtimedoc" {
+			has = true
+			vals = append(vals, v)
+		}
+		if strings.HasPrefix(k, "gengo:runtimedoc:") {
+			sub = true
+		}
+	}
+	if has {
+		return strings.Join(vals, "") != "false"
+	}
+	return !in.NoPkgTag || sub
+}
+
+func (in *Input) covered(t *Type) bool {
+	if !in.enabled(t) || !token.IsExported(t.Name) {
 		return false
 	}
 	switch t.Kind {
@@ -98,6 +127,9 @@ func (in *Input) delegating(f *Field) bool {
 	if f.Ptr {
 		return true
 	}
+	if f.Foreign != "" {
+		return f.Foreign != "sync.Mutex" // a struct without exported fields
+	}
 	if tt := in.lookup(f.Name); tt != nil && tt.Kind == "struct" && !hasExpose(tt) {
 		return false
 	}
@@ -106,7 +138,7 @@ func (in *Input) delegating(f *Field) bool {
 
 func (in *Input) hasDelegations(tn string) bool {
 	t := in.lookup(tn)
-	if t == nil || !covered(t) || t.Kind != "struct" {
+	if t == nil || !in.covered(t) || t.Kind != "struct" {
 		return false
 	}
 	for i := range t.Fields {
@@ -168,7 +200,7 @@ func (in *Input) value(tn string, full bool, path []string) RV {
 	var v RV
 	for i := range t.Fields {
 		f := &t.Fields[i]
-		if !f.Embedded || in.lookup(f.Name) == nil {
+		if !f.Embedded || f.Foreign != "" || in.lookup(f.Name) == nil {
 			continue
 		}
 		if f.Ptr {
@@ -212,4 +244,24 @@ func sortedTypes(in *Input) []*Type {
 	}
 	sort.SliceStable(ts, func(i, j int) bool { return ts[i].Name < ts[j].Name })
 	return ts
+}
+
+// normalize recomputes each named field's class from its type text, as the generator's type tests see it.
+func normalize(in *Input) {
+	for i := range in.Types {
+		for k := range in.Types[i].Fields {
+			f := &in.Types[i].Fields[k]
+			if f.Embedded {
+				f.Class, f.Type = "", ""
+				continue
+			}
+			f.Class = "ordinary"
+			base := strings.TrimSuffix(f.Type, "[int]")
+			if strings.HasPrefix(f.Type, "struct") {
+				f.Class = "inline"
+			} else if tt := in.lookup(base); tt != nil && tt.Kind == "struct" && len(tt.Fields) == 0 {
+				f.Class = "empty"
+			}
+		}
+	}
 }
